@@ -122,6 +122,8 @@ def impl_oracle(line, out):
         if it[1] == "?":
             problems.append("unparsable item %s" % it[2][0])
     live = {}       # (sess, mid) -> list of records
+    limbo = {}      # (sess, mid) -> how many records whose fate the trace cannot tell (an ACK/RST hit
+                    # one of several pending messages with the same session and mid: which one?)
     closed = []
     relaxed = False
     stats = {"retx": 0, "acked": 0, "rst": 0, "giveup": 0, "sent": 0}
@@ -188,8 +190,16 @@ def impl_oracle(line, out):
             l = live.get((s, mid), [])
             if k == "K" and any(is_request(r["code"]) for r in l):
                 relaxed = True
+            if k in ("K", "P", "R") and len(l) > 1:
+                # the first one IN QUEUE ORDER goes; the trace does not say which that is
+                limbo[(s, mid)] = limbo.get((s, mid), 0) + len(l) - 1
+                if k == "R":
+                    del l[1:]
+                else:
+                    del l[:]
+                    stats["acked"] += 1
             if k in ("K", "P") and l:   # (N is handled by token below)
-                r = l.pop(0)       # (if several are pending it is not known which one: all are tainted)
+                r = l.pop(0)
                 r["out"] = "acked"
                 closed.append(r)
                 stats["acked"] += 1
@@ -200,6 +210,8 @@ def impl_oracle(line, out):
                 for key in list(live):
                     if key[0] != s:
                         continue
+                    if limbo.get(key) and any(x["tok"] == tok for x in closed if (x["sess"], x["mid"]) == key):
+                        limbo[key] = 0      # (could have been the one in limbo)
                     for r in [x for x in live[key] if x["tok"] == tok]:
                         live[key].remove(r)
                         r["out"] = "acked"
@@ -231,6 +243,9 @@ def impl_oracle(line, out):
                 if t != now:
                     problems.append("transmission stamped %d during an event at %d" % (t, now))
                 r = rec_for(s2, mid2) if mid2 is not None else None
+                if limbo.get((s2, mid2)):
+                    stats["retx"] += 1
+                    continue
                 if mid2 is not None and not live.get((s2, mid2)):
                     problems.append("mid %d on session %d transmitted although it is not pending "
                                     "(after its outcome, or never accepted)" % (mid2, s2))
@@ -252,6 +267,10 @@ def impl_oracle(line, out):
                     problems.append("unexpected NACK %s" % f)
                     continue
                 l = live.get((s2, mid2), [])
+                if not l and limbo.get((s2, mid2)):
+                    limbo[(s2, mid2)] -= 1
+                    stats["giveup"] += 1
+                    continue
                 if not l:
                     problems.append("NACK TOO_MANY_RETRIES for mid %d which is not pending" % mid2)
                     continue
@@ -271,6 +290,9 @@ def impl_oracle(line, out):
                 if t != now:
                     problems.append("prepare stamped %d at %d" % (t, now))
                 npend = sum(len(v) for v in live.values())
+                nlimbo = sum(limbo.values())
+                if nlimbo:
+                    continue
                 if hd < 0:
                     if npend:
                         problems.append("nothing queued at %d although %d message(s) are pending" % (t, npend))
@@ -293,8 +315,9 @@ def impl_oracle(line, out):
             elif kind == "q":
                 t = int(f[0])
                 ents = [] if f[1] == "-" else [tuple(int(x) for x in z.split("/")) for z in f[1].split(",")]
-                want = sorted((r["sess"], r["mid"]) for v in live.values() for r in v)
-                got = sorted((s2, m2) for (_, s2, m2, _) in ents)
+                want = sorted((r["sess"], r["mid"]) for v in live.values() for r in v
+                              if not limbo.get((r["sess"], r["mid"])))
+                got = sorted((s2, m2) for (_, s2, m2, _) in ents if not limbo.get((s2, m2)))
                 if want != got:
                     problems.append("queue holds %s, pending messages are %s" % (got, want))
                 if [d for (d, _, _, _) in ents] != sorted(d for (d, _, _, _) in ents):
@@ -489,6 +512,26 @@ def main(run):
                 run.violation(bad, "case: %s\nmodel: %s\nimpl : %s\noracle on impl: %s\n(original case: %s)\n" %
                               (small, a[0], b[0], p2 or "holds", ln), tag="tie%d" % nbad,
                               no_input=no_input and not p2)
+    # ---- thorough: the same lines through an ASan+UBSan build of library and driver
+    if not quick:
+        try:
+            adrv = vlib.build_driver("h_sched", ["h_sched.c"], variant="asan", wraps=WRAPS)
+            sub = lines[:len(corpus)] + lines[len(corpus)::7][:4000]
+            ao, acr = vlib.run_lines_robust(adrv, sub, timeout=1500,
+                                            env={"ASAN_OPTIONS": "detect_leaks=0:abort_on_error=1",
+                                                 "UBSAN_OPTIONS": "halt_on_error=1"})
+            base = dict(zip(lines, oc))
+            nas = 0
+            for ln, o in zip(sub, ao):
+                if o != base.get(ln):
+                    nas += 1
+                    if nas <= 2:
+                        run.violation("sanitizer build behaves differently or traps: %s" % o[:100],
+                                      "case: %s\nasan: %s\nbase: %s\nstderr: %s\n" %
+                                      (ln, o, base.get(ln), acr[0][2] if acr else ""), tag="asan%d" % nas)
+            run.cov["asan"] = {"cases": len(sub), "differences": nas, "crashes": len(acr)}
+        except vlib.BuildError as e:
+            run.cov["asan"] = {"skipped": str(e)[:200]}
     run.cov["impl_totals"] = agg
     run.cov["drop_subset_cases"] = len(drops)
 
